@@ -35,6 +35,292 @@ type rw struct {
 	refuse []string
 	name   string
 	used   bool
+	pk     *pkgFacts
+	params map[types.Object]bool
+	events int
+}
+
+// pkgFacts are the shared-state facts of one package: package-level variables and struct fields
+// (reached through a receiver or parameter) that are written somewhere outside variable initialisers.
+type pkgFacts struct {
+	mutVars   map[types.Object]bool
+	mutFields map[types.Object]bool
+	pkg       *types.Package
+}
+
+func isPkgVar(o types.Object) bool {
+	v, ok := o.(*types.Var)
+	return ok && !v.IsField() && v.Pkg() != nil && v.Parent() == v.Pkg().Scope()
+}
+
+// rootOf strips index, star, paren and field selections; it returns the base identifier and the first
+// field selected directly on it (nil when none).
+func rootOf(info *types.Info, e ast.Expr) (*ast.Ident, *ast.SelectorExpr) {
+	var first *ast.SelectorExpr
+	for {
+		switch x := e.(type) {
+		case *ast.ParenExpr:
+			e = x.X
+		case *ast.IndexExpr:
+			e = x.X
+		case *ast.SliceExpr:
+			e = x.X
+		case *ast.StarExpr:
+			e = x.X
+		case *ast.SelectorExpr:
+			if sel, ok := info.Selections[x]; ok && sel.Kind() == types.FieldVal {
+				first = x
+				e = x.X
+			} else {
+				return nil, nil
+			}
+		case *ast.Ident:
+			return x, first
+		default:
+			return nil, nil
+		}
+	}
+}
+
+func funcParams(info *types.Info, recv *ast.FieldList, typ *ast.FuncType) map[types.Object]bool {
+	m := map[types.Object]bool{}
+	add := func(fl *ast.FieldList) {
+		if fl == nil {
+			return
+		}
+		for _, f := range fl.List {
+			for _, n := range f.Names {
+				if o := info.Defs[n]; o != nil {
+					m[o] = true
+				}
+			}
+		}
+	}
+	add(recv)
+	if typ != nil {
+		add(typ.Params)
+	}
+	return m
+}
+
+// writeTargets lists the expressions written by statement-level constructs inside n (not descending
+// into nested function literals' own statements is unnecessary: they are visited as well).
+func writeTargets(info *types.Info, n ast.Node, f func(e ast.Expr)) {
+	ast.Inspect(n, func(c ast.Node) bool {
+		switch x := c.(type) {
+		case *ast.AssignStmt:
+			for _, l := range x.Lhs {
+				f(l)
+			}
+		case *ast.IncDecStmt:
+			f(x.X)
+		case *ast.UnaryExpr:
+			if x.Op == token.AND {
+				f(x.X)
+			}
+		case *ast.SliceExpr:
+			if t := info.TypeOf(x.X); t != nil {
+				if _, ok := t.Underlying().(*types.Array); ok {
+					f(x.X)
+				}
+			}
+		case *ast.RangeStmt:
+			if x.Tok == token.ASSIGN {
+				if x.Key != nil {
+					f(x.Key)
+				}
+				if x.Value != nil {
+					f(x.Value)
+				}
+			}
+		case *ast.CallExpr:
+			// a method call on a package-level variable of a foreign pointer type (e.g. *rand.Rand)
+			// may mutate it
+			if sel, ok := x.Fun.(*ast.SelectorExpr); ok {
+				if id, ok := sel.X.(*ast.Ident); ok {
+					if o := info.Uses[id]; o != nil && isPkgVar(o) {
+						if p, ok := o.Type().(*types.Pointer); ok {
+							if nt, ok := p.Elem().(*types.Named); ok && nt.Obj().Pkg() != o.Pkg() {
+								f(id)
+							}
+						}
+					}
+				}
+			}
+		}
+		return true
+	})
+}
+
+func collectFacts(info *types.Info, files []*ast.File, pkg *types.Package) *pkgFacts {
+	pf := &pkgFacts{mutVars: map[types.Object]bool{}, mutFields: map[types.Object]bool{}, pkg: pkg}
+	for _, f := range files {
+		for _, d := range f.Decls {
+			fd, ok := d.(*ast.FuncDecl)
+			if !ok || fd.Body == nil {
+				continue
+			}
+			params := funcParams(info, fd.Recv, fd.Type)
+			writeTargets(info, fd.Body, func(e ast.Expr) {
+				id, first := rootOf(info, e)
+				if id == nil {
+					return
+				}
+				o := info.Uses[id]
+				if o == nil {
+					return
+				}
+				if isPkgVar(o) {
+					pf.mutVars[o] = true
+				} else if params[o] && first != nil {
+					if sel := info.Selections[first]; sel != nil {
+						pf.mutFields[sel.Obj()] = true
+					}
+				}
+			})
+		}
+	}
+	return pf
+}
+
+// accesses returns the instrumentation calls for the expressions directly belonging to statement st
+// (nested statement lists are instrumented on their own).
+func (r *rw) accesses(st ast.Stmt) string {
+	if r.pk == nil {
+		return ""
+	}
+	var heads []ast.Node
+	switch x := st.(type) {
+	case *ast.IfStmt:
+		for cur := x; cur != nil; {
+			if cur.Init != nil {
+				heads = append(heads, cur.Init)
+			}
+			heads = append(heads, cur.Cond)
+			next, _ := cur.Else.(*ast.IfStmt)
+			cur = next
+		}
+	case *ast.ForStmt:
+		for _, h := range []ast.Node{x.Init, x.Cond, x.Post} {
+			if h != nil && !isNilNode(h) {
+				heads = append(heads, h)
+			}
+		}
+	case *ast.RangeStmt:
+		heads = append(heads, x.X)
+	case *ast.SwitchStmt:
+		if x.Init != nil {
+			heads = append(heads, x.Init)
+		}
+		if x.Tag != nil {
+			heads = append(heads, x.Tag)
+		}
+	case *ast.TypeSwitchStmt:
+		heads = append(heads, x.Assign)
+	case *ast.BlockStmt, *ast.SelectStmt, *ast.LabeledStmt, *ast.CaseClause, *ast.CommClause:
+		return ""
+	default:
+		heads = append(heads, st)
+	}
+	type acc struct {
+		text  string
+		write bool
+	}
+	seen := map[string]*acc{}
+	var order []string
+	note := func(expr, label string, w bool) {
+		k := expr
+		if a, ok := seen[k]; ok {
+			a.write = a.write || w
+			return
+		}
+		seen[k] = &acc{label, w}
+		order = append(order, k)
+	}
+	for _, h := range heads {
+		writes := map[ast.Node]bool{}
+		writeTargets(r.info, h, func(e ast.Expr) {
+			id, first := rootOf(r.info, e)
+			if id == nil {
+				return
+			}
+			if first != nil {
+				writes[first] = true
+			} else {
+				writes[id] = true
+			}
+		})
+		ast.Inspect(h, func(c ast.Node) bool {
+			switch x := c.(type) {
+			case *ast.FuncLit:
+				return false // its body is a block of its own
+			case *ast.SelectorExpr:
+				if sel, ok := r.info.Selections[x]; ok && sel.Kind() == types.FieldVal && r.pk.mutFields[sel.Obj()] {
+					if id, ok := x.X.(*ast.Ident); ok {
+						if o := r.info.Uses[id]; o != nil && r.params[o] {
+							tn := "?"
+							if nt := namedOf(o.Type()); nt != nil {
+								tn = nt.Obj().Name()
+							}
+							note("&"+id.Name+"."+x.Sel.Name, tn+"."+x.Sel.Name, writes[x])
+						}
+					}
+				}
+			case *ast.Ident:
+				if o := r.info.Uses[x]; o != nil && isPkgVar(o) && r.pk.mutVars[o] && o.Pkg() == r.pk.pkg {
+					note("&"+x.Name, o.Pkg().Name()+"."+x.Name, writes[x])
+				}
+			}
+			return true
+		})
+	}
+	var b strings.Builder
+	for _, k := range order {
+		a := seen[k]
+		fn := "R"
+		if a.write {
+			fn = "W"
+		}
+		fmt.Fprintf(&b, "vsync.%s(%s, %q); ", fn, k, a.text)
+		r.events++
+		r.used = true
+	}
+	return b.String()
+}
+
+func isNilNode(n ast.Node) bool {
+	switch x := n.(type) {
+	case ast.Stmt:
+		return x == nil
+	case ast.Expr:
+		return x == nil
+	}
+	return n == nil
+}
+
+func namedOf(t types.Type) *types.Named {
+	if p, ok := t.(*types.Pointer); ok {
+		t = p.Elem()
+	}
+	nt, _ := t.(*types.Named)
+	return nt
+}
+
+// stmtList renders a statement list with access events in front of each statement.
+func (r *rw) stmtList(list []ast.Stmt) string {
+	var b strings.Builder
+	for _, st := range list {
+		if ls, ok := st.(*ast.LabeledStmt); ok {
+			b.WriteString(ls.Label.Name + ":\n")
+			b.WriteString(r.accesses(ls.Stmt))
+			b.WriteString(r.render(ls.Stmt))
+		} else {
+			b.WriteString(r.accesses(st))
+			b.WriteString(r.render(st))
+		}
+		b.WriteString("\n")
+	}
+	return b.String()
 }
 
 func (r *rw) off(p token.Pos) int { return r.fset.Position(p).Offset }
@@ -109,6 +395,22 @@ func (r *rw) special(n ast.Node) (string, bool) {
 	case *ast.GoStmt:
 		r.used = true
 		return "vsync.Go(func() { " + r.render(x.Call) + " })", true
+	case *ast.BlockStmt:
+		if r.pk != nil && r.params != nil {
+			return "{\n" + r.stmtList(x.List) + "}", true
+		}
+	case *ast.CaseClause:
+		if r.pk != nil && r.params != nil {
+			head := "default:"
+			if len(x.List) > 0 {
+				var es []string
+				for _, e := range x.List {
+					es = append(es, r.render(e))
+				}
+				head = "case " + strings.Join(es, ", ") + ":"
+			}
+			return head + "\n" + r.stmtList(x.Body), true
+		}
 	case *ast.SelectStmt:
 		r.refuse = append(r.refuse, fmt.Sprintf("%s: select statement at %v", r.name, r.fset.Position(x.Pos())))
 	case *ast.SelectorExpr:
@@ -189,6 +491,8 @@ func main() {
 	out := flag.String("out", "/verif/.work/rw", "output directory")
 	rt := flag.String("rt", "/verif/rt", "runtime package sources")
 	vosFiles := flag.String("vos", "render/stl.go,render/svg.go", "files whose os import is replaced by vos")
+	access := flag.Bool("access", true, "insert memory access events for shared mutable state (race detection)")
+	totalEvents := 0
 	flag.Parse()
 	os.Chdir(*repo)
 	overlay := map[string]string{}
@@ -234,7 +538,7 @@ func main() {
 				anyNeeds = true
 			}
 		}
-		if pkg == "render/dc" || pkg == "obj" {
+		if pkg == "render/dc" {
 			// these packages are not run under the scheduler; they must not start goroutines or lock
 			for i, f := range files {
 				ast.Inspect(f, func(n ast.Node) bool {
@@ -246,18 +550,28 @@ func main() {
 			}
 			continue
 		}
-		if !anyNeeds {
+		if !anyNeeds && !*access {
 			continue
 		}
-		info := &types.Info{Types: map[ast.Expr]types.TypeAndValue{}}
+		info := &types.Info{Types: map[ast.Expr]types.TypeAndValue{}, Uses: map[*ast.Ident]types.Object{}, Defs: map[*ast.Ident]types.Object{}, Selections: map[*ast.SelectorExpr]*types.Selection{}}
 		conf := types.Config{Importer: imp, Error: func(error) {}}
-		conf.Check("github.com/deadsy/sdfx/"+pkg, fset, files, info)
-		for i, f := range files {
-			if !needs(f) {
-				continue
+		tpkg, _ := conf.Check("github.com/deadsy/sdfx/"+pkg, fset, files, info)
+		var facts *pkgFacts
+		if *access && tpkg != nil {
+			facts = collectFacts(info, files, tpkg)
+			var names []string
+			for o := range facts.mutVars {
+				names = append(names, pkg+"."+o.Name())
 			}
+			for o := range facts.mutFields {
+				names = append(names, pkg+":field "+o.Name())
+			}
+			sort.Strings(names)
+			fmt.Fprintln(os.Stderr, "vrewrite: shared mutable state in", pkg+":", strings.Join(names, ", "))
+		}
+		for i, f := range files {
 			n := names[i]
-			r := &rw{fset: fset, src: srcs[n], info: info, name: pkg + "/" + n}
+			r := &rw{fset: fset, src: srcs[n], info: info, name: pkg + "/" + n, pk: facts}
 			// file = package clause + decls; imports handled textually
 			var b strings.Builder
 			b.WriteString("//go:build verif\n\n")
@@ -287,6 +601,10 @@ func main() {
 					}
 					b.WriteString(txt)
 				} else {
+					r.params = nil
+					if fd, ok := d.(*ast.FuncDecl); ok && facts != nil {
+						r.params = funcParams(info, fd.Recv, fd.Type)
+					}
 					b.WriteString(r.render(d))
 				}
 				pos = r.off(d.End())
@@ -296,6 +614,10 @@ func main() {
 			if hasRuntime {
 				b.WriteString("\nvar _ = runtime.GOOS\n")
 			}
+			if !needs(f) && r.events == 0 {
+				continue
+			}
+			totalEvents += r.events
 			refuse = append(refuse, r.refuse...)
 			dst := filepath.Join(*out, pkg, n)
 			os.MkdirAll(filepath.Dir(dst), 0o755)
@@ -313,6 +635,6 @@ func main() {
 		}
 		os.Exit(3)
 	}
-	fmt.Fprintf(os.Stderr, "vrewrite: %d files rewritten\n", count)
+	fmt.Fprintf(os.Stderr, "vrewrite: %d files rewritten, %d access events inserted\n", count, totalEvents)
 	json.NewEncoder(os.Stdout).Encode(map[string]any{"Replace": overlay})
 }
